@@ -542,34 +542,45 @@ fn cmp_slices<T: PartialEq + Debug>(what: &str, a: &[T], b: &[T]) -> Result<(), 
     Ok(())
 }
 
+fn cmp_mapped_slice<T: simple_sds::serialize::Serializable + PartialEq + Debug>(what: &str, view: &MappedSlice<'_, T>, own: &[T]) -> Result<(), String> {
+    if view.len() != own.len() || view.is_empty() != own.is_empty() { return Err(format!("{}::len / is_empty", what)); }
+    cmp_slices(what, view.as_ref(), own)?;
+    // The other access paths: Deref and Index.
+    let d: &[T] = view;
+    if d.len() != own.len() { return Err(format!("{}: Deref length", what)); }
+    for i in sample_points(own.len()) { if view[i] != own[i] || d[i] != own[i] { return Err(format!("{}: index {}", what, i)); } }
+    Ok(())
+}
+
 impl MapView for Vec<u64> {
     type View<'a> = MappedSlice<'a, u64>;
-    fn compare<'a>(&self, view: &Self::View<'a>) -> Result<(), String> {
-        if view.len() != self.len() || view.is_empty() != self.is_empty() { return Err("MappedSlice::len".into()); }
-        cmp_slices("MappedSlice<u64>", view.as_ref(), self.as_slice())
-    }
+    fn compare<'a>(&self, view: &Self::View<'a>) -> Result<(), String> { cmp_mapped_slice("MappedSlice<u64>", view, self.as_slice()) }
 }
 impl MapView for Vec<usize> {
     type View<'a> = MappedSlice<'a, usize>;
-    fn compare<'a>(&self, view: &Self::View<'a>) -> Result<(), String> { cmp_slices("MappedSlice<usize>", view.as_ref(), self.as_slice()) }
+    fn compare<'a>(&self, view: &Self::View<'a>) -> Result<(), String> { cmp_mapped_slice("MappedSlice<usize>", view, self.as_slice()) }
 }
 impl MapView for Vec<(u64, u64)> {
     type View<'a> = MappedSlice<'a, (u64, u64)>;
-    fn compare<'a>(&self, view: &Self::View<'a>) -> Result<(), String> { cmp_slices("MappedSlice<(u64,u64)>", view.as_ref(), self.as_slice()) }
+    fn compare<'a>(&self, view: &Self::View<'a>) -> Result<(), String> { cmp_mapped_slice("MappedSlice<(u64,u64)>", view, self.as_slice()) }
 }
 impl MapView for Vec<u8> {
     type View<'a> = MappedBytes<'a>;
     fn compare<'a>(&self, view: &Self::View<'a>) -> Result<(), String> {
-        if view.len() != self.len() { return Err("MappedBytes::len".into()); }
-        cmp_slices("MappedBytes", view.as_ref(), self.as_slice())
+        if view.len() != self.len() || view.is_empty() != self.is_empty() { return Err("MappedBytes::len / is_empty".into()); }
+        cmp_slices("MappedBytes", view.as_ref(), self.as_slice())?;
+        let d: &[u8] = view;
+        for i in sample_points(self.len()) { if view[i] != self[i] || d[i] != self[i] { return Err(format!("MappedBytes: index {}", i)); } }
+        Ok(())
     }
 }
 impl MapView for String {
     type View<'a> = MappedStr<'a>;
     fn compare<'a>(&self, view: &Self::View<'a>) -> Result<(), String> {
-        if view.len() != self.len() { return Err("MappedStr::len".into()); }
+        if view.len() != self.len() || view.is_empty() != self.is_empty() { return Err("MappedStr::len / is_empty".into()); }
         let s: &str = view.as_ref();
-        if s == self.as_str() { Ok(()) } else { Err("MappedStr: content differs".into()) }
+        let d: &str = view;
+        if s == self.as_str() && d == self.as_str() { Ok(()) } else { Err("MappedStr: content differs".into()) }
     }
 }
 impl MapView for RawVector {
@@ -577,6 +588,9 @@ impl MapView for RawVector {
     fn compare<'a>(&self, view: &Self::View<'a>) -> Result<(), String> {
         if view.len() != self.len() { return Err(format!("RawVectorMapper::len {} != {}", view.len(), self.len())); }
         if view.count_ones() != self.count_ones() { return Err("RawVectorMapper::count_ones".into()); }
+        if view.is_empty() != self.is_empty() || view.is_mutable() { return Err("RawVectorMapper::is_empty / is_mutable".into()); }
+        for i in sample_points((self.len() + 63) / 64) { if view.word(i) != self.word(i) || unsafe { view.word_unchecked(i) } != self.word(i) { return Err(format!("RawVectorMapper::word({})", i)); } }
+        for w in [1usize, 7, 31, 58, 59, 63, 64] { if self.len() >= w { for i in sample_points(self.len() - w + 1) { if unsafe { view.int(i, w) != self.int(i, w) } { return Err(format!("RawVectorMapper::int({}, {})", i, w)); } } } }
         let words: &MappedSlice<u64> = view.as_ref();
         cmp_slices("RawVectorMapper words", words.as_ref(), self.as_ref())?;
         for i in sample_points(self.len()) { if view.bit(i) != self.bit(i) { return Err(format!("RawVectorMapper::bit({})", i)); } }
@@ -591,6 +605,9 @@ impl MapView for IntVector {
         if view.width() != self.width() { return Err("IntVectorMapper::width".into()); }
         for i in 0..self.len() { if view.get(i) != self.get(i) { return Err(format!("IntVectorMapper::get({})", i)); } }
         if !view.iter().eq(self.iter()) { return Err("IntVectorMapper::iter".into()); }
+        if !view.iter().rev().eq(self.iter().rev()) { return Err("IntVectorMapper::iter (backwards)".into()); }
+        if view.is_empty() != self.is_empty() || view.is_mutable() { return Err("IntVectorMapper::is_empty / is_mutable".into()); }
+        if view.get_or(self.len(), 77) != 77 { return Err("IntVectorMapper::get_or past the end".into()); }
         let raw: &RawVectorMapper = view.as_ref();
         let own: &RawVector = self.as_ref();
         if raw.len() != own.len() { return Err("IntVectorMapper raw len".into()); }
@@ -602,7 +619,7 @@ impl<T: MapView> MapView for Option<T> {
     fn compare<'a>(&self, view: &Self::View<'a>) -> Result<(), String> {
         if view.is_some() != self.is_some() || view.is_none() != self.is_none() { return Err("MappedOption: Some/None mismatch".into()); }
         match (self, view.as_ref()) {
-            (Some(v), Some(inner)) => v.compare(inner),
+            (Some(v), Some(inner)) => { v.compare(view.unwrap())?; v.compare(inner) },
             (None, None) => Ok(()),
             _ => Err("MappedOption::as_ref mismatch".into()),
         }
